@@ -20,6 +20,15 @@ type Cache struct {
 	accessOrder list.List
 }
 
+// writeSignature writes the signature bytes and the claimed participants to the key:
+// the same bytes under different signer labels are a different signature.
+func writeSignature(key *strings.Builder, signature hotstuff.QuorumSignature) {
+	_, _ = key.Write(signature.ToBytes())
+	signature.Participants().ForEach(func(id hotstuff.ID) {
+		_, _ = key.Write(id.ToBytes())
+	})
+}
+
 func (cache *Cache) insert(key string) {
 	cache.mut.Lock()
 	defer cache.mut.Unlock()
@@ -61,7 +70,7 @@ func (cache *Cache) Sign(message []byte) (sig hotstuff.QuorumSignature, err erro
 	var key strings.Builder
 	hash := sha256.Sum256(message)
 	_, _ = key.Write(hash[:])
-	_, _ = key.Write(sig.ToBytes())
+	writeSignature(&key, sig)
 	cache.insert(key.String())
 	return sig, nil
 }
@@ -71,7 +80,7 @@ func (cache *Cache) Verify(signature hotstuff.QuorumSignature, message []byte) e
 	var key strings.Builder
 	hash := sha256.Sum256(message)
 	_, _ = key.Write(hash[:])
-	_, _ = key.Write(signature.ToBytes())
+	writeSignature(&key, signature)
 
 	if cache.check(key.String()) {
 		return nil
@@ -91,15 +100,17 @@ func (cache *Cache) BatchVerify(signature hotstuff.QuorumSignature, batch map[ho
 	ids := slices.Sorted(maps.Keys(batch))
 	var hash hotstuff.Hash
 	hasher := sha256.New()
-	// then hash the messages in sorted order
+	// then hash the messages in sorted order, each bound to its signer and delimited by its length
 	for _, id := range ids {
+		_, _ = hasher.Write(id.ToBytes())
+		_, _ = hasher.Write(hotstuff.View(len(batch[id])).ToBytes())
 		_, _ = hasher.Write(batch[id])
 	}
-	hasher.Sum(hash[:])
+	hasher.Sum(hash[:0])
 
 	var key strings.Builder
 	_, _ = key.Write(hash[:])
-	_, _ = key.Write(signature.ToBytes())
+	writeSignature(&key, signature)
 
 	if cache.check(key.String()) {
 		return nil
